@@ -181,8 +181,11 @@ def check(prog, res, tier):
                 post = s1.get(k)
                 if k[0] != 'local' or not isinstance(g, IntV) or not isinstance(post, IntV):
                     continue
-                step = st.canon(post.lin - g.lin)
-                if not (len(step.t) == 1 and step.c == 0 and step.t[0][1] == 1 and step.t[0][0].startswith('increment')):
+                if not rets or not (isinstance(rets[-1].data['value'], TupleV) and len(rets[-1].data['value'].items) == 2
+                                    and isinstance(rets[-1].data['value'].items[1], IntV)):
+                    continue
+                inc = rets[-1].data['value'].items[1].lin
+                if st.decide_eq0(post.lin - g.lin - inc) is not True:
                     continue
                 if not arg.segs:
                     ok = True
